@@ -9,7 +9,9 @@ SPEC = {'level': 'exploration',
              'target': 'c27_limits',
              'cases_quick': 400,
              'cases_thorough': 5000,
-             'min_cases_quick': 200,
+             'min_cases_quick': 60,
+             'max_seconds_quick': 600,
+             'max_seconds_thorough': 14400,
              'floors': {'eviction-for-space': 0.15, 'usage>=90%': 0.15, 'truc-pair-in-pool': 0.3, 'dust-spent-by-child': 0.15, 'dusty-tx-accepted': 0.15, 'cluster-at-count-limit': 0.08, 'filler-burst': 0.5,
                         'no-disconnection-history': 0.6, 'dust-with-priority-op': 0.4, 'dust-delta-on-zero-fee': 0.15, 'dust-base-fee-hidden-by-delta': 0.03, 'replacement-happened': 0.2},
              'rule': 'submission histories under small limits; non-trivial = eviction for space happened, or a TRUC parent/child pair was in the pool, or a dust output was spent by an accepted child'}]}
